@@ -657,8 +657,17 @@ func (c *BytecodeCompiler) CompileMethods(location *position.Location, execOffse
 		return
 	}
 
-	// If no instructions were emitted, remove the EXEC instruction block
-	c.parent.removeLastBytes(execOffset)
+	// If no instructions were emitted, remove the EXEC instruction block.
+	// Only the block itself gets removed, the code compiled after it
+	// (declarations of constants initialised with method calls) has to stay.
+	execBlockSize := 3 // LOAD_VALUE_x, EXEC, POP
+	switch bytecode.OpCode(c.parent.bytecode.Instructions[execOffset]) {
+	case bytecode.LOAD_VALUE8:
+		execBlockSize = 4
+	case bytecode.LOAD_VALUE16:
+		execBlockSize = 5
+	}
+	c.parent.removeBytes(execOffset, execBlockSize)
 	c.parent.removeBytecodeFunction(methodDefinitionsSymbol)
 }
 
